@@ -97,6 +97,10 @@ func runC16(c *Ctx, tier string) {
 	c16Thresholds(c, r)
 	c16Fermat(c, r)
 	c16FermatSchema(c, r)
+	// what the caller sees is what Execute returned: the life-cycle functions pass the
+	// rule body's result through unchanged (status and details — the factors reported by
+	// the Fermat lint included)
+	lcReport(c, r, "lifecycle", nil)
 	// premise of every per-lint rule of this property: the verdict is computed on the
 	// object as parsed and on immutable tables — no lint method (any lint may run
 	// earlier in the same pass) writes memory reachable from the linted object or a
@@ -247,8 +251,8 @@ func c16TrialDivision(c *Ctx, r *Report) {
 		lastHit := false
 		for _, cd := range o.Conds {
 			t := cd.T
-			if t.Op == "bin" && t.Name == "<" {
-				continue
+			if t.Op == "bin" && t.Name == "<" && len(t.Args) == 2 && t.Args[0].IsConst() && t.Args[1].String() == "builtin:len(util.bigIntPrimes)" {
+				continue // the loop's own test: index < number of table entries
 			}
 			if t.Op == "bin" && t.Name == "==" && t.Args[1].String() == "0" {
 				// remainder == 0, spelt m.Cmp(zero) == 0, m.Sign() == 0 or m.BitLen() == 0
